@@ -491,7 +491,7 @@ struct WorldEngine : run::Engine {
 		p.cfg["faults"] = g.chance(1, 4) ? 0 : 1;
 		p.cfg["epoch"] = (int64_t)g.below(5);
 		p.cfg["epoch_ms"] = (int64_t)g.below(1000);
-		p.cfg["loglevel"] = g.chance(1, 6) ? 5 : 0;
+		p.cfg["loglevel"] = g.chance(1, 6) ? g.pickl<int64_t>({5, 5, 6, 7}) : 0;
 		p.cfg["warm"] = g.chance(1, 30) ? (int64_t)g.range(250, 258) : 0;
 		int n = tier ? (int)g.range(4, 24) : (int)g.range(1, 8);
 		auto env_args = [&](std::vector<int64_t> &a) {
